@@ -193,10 +193,21 @@ func (q *checker) tcheckStatement(n *a.Node) error {
 		}
 
 		for _, o := range n.Body() {
-			// TODO: prohibit jumps (breaks, continues), rets (returns, yields)
-			// and retry-calling ? methods while inside an io_bind body.
+			// TODO: prohibit jumps (breaks, continues) and returns while
+			// inside an io_bind body.
 			if err := q.tcheckStatement(o); err != nil {
 				return err
+			}
+		}
+		// The generated code holds the I/O buffer's original bounds in C local
+		// variables for the duration of the body, and C local variables do not
+		// survive a coroutine suspension.
+		if n.Keyword() != t.IDIOForgetHistory {
+			if o := findSuspensionPoint(n.Body()); o != nil {
+				q.errFilename, q.errLine = o.AsRaw().FilenameLine()
+				return fmt.Errorf("check: cannot suspend inside an %s body; "+
+					"assign the callee's status with =? and yield it after the body",
+					n.Keyword().Str(q.tm))
 			}
 		}
 
@@ -1291,4 +1302,48 @@ var comparisonOps = [...]bool{
 	t.IDXBinaryEqEq:        true,
 	t.IDXBinaryGreaterEq:   true,
 	t.IDXBinaryGreaterThan: true,
+}
+
+// findSuspensionPoint returns the first statement in block (recursively) at
+// which the enclosing coroutine can suspend: a "yield?" or a "?" call whose
+// status is not captured by the "=?" operator.
+func findSuspensionPoint(block []*a.Node) *a.Node {
+	for _, o := range block {
+		switch o.Kind() {
+		case a.KAssign:
+			o := o.AsAssign()
+			if rhs := o.RHS(); (rhs.Operator() == a.ExprOperatorCall) && rhs.Effect().Coroutine() &&
+				(o.Operator() != t.IDEqQuestion) {
+				return o.AsNode()
+			}
+		case a.KIOManip:
+			if x := findSuspensionPoint(o.AsIOManip().Body()); x != nil {
+				return x
+			}
+		case a.KIf:
+			for o := o.AsIf(); o != nil; o = o.ElseIf() {
+				if x := findSuspensionPoint(o.BodyIfTrue()); x != nil {
+					return x
+				}
+				if x := findSuspensionPoint(o.BodyIfFalse()); x != nil {
+					return x
+				}
+			}
+		case a.KIterate:
+			for o := o.AsIterate(); o != nil; o = o.ElseIterate() {
+				if x := findSuspensionPoint(o.Body()); x != nil {
+					return x
+				}
+			}
+		case a.KRet:
+			if o.AsRet().Keyword() == t.IDYield {
+				return o
+			}
+		case a.KWhile:
+			if x := findSuspensionPoint(o.AsWhile().Body()); x != nil {
+				return x
+			}
+		}
+	}
+	return nil
 }
